@@ -8,6 +8,7 @@ import (
 	"go/token"
 	"go/types"
 	"math/big"
+	"strings"
 
 	"golang.org/x/tools/go/ssa"
 )
@@ -98,6 +99,20 @@ func (fx *FnCtx) globalValue(st *State, g *ssa.Global) Value {
 		}
 	}
 	fx.V.tableFacts(fx, g, v)
+	// sentinel errors (package-level variables of type error named EOF/Err*): non-nil, pairwise distinct
+	if types.Identical(t, types.Universe.Lookup("error").Type()) && (g.Name() == "EOF" || strings.HasPrefix(g.Name(), "Err")) {
+		marker := Sym("sentinel_"+name, BoolSort)
+		if !fx.root.heapAxiomDone[marker] {
+			fx.root.heapAxiomDone[marker] = true
+			tc := fx.tc
+			fx.root.axioms = append(fx.root.axioms, tc.IdxLt(tc.IdxNum(0), v.L[0]), tc.IdxLt(tc.IdxNum(0), v.L[1]))
+			for _, other := range fx.root.sentinels {
+				fx.root.axioms = append(fx.root.axioms, Not(Eq(other, v.L[1])))
+			}
+			fx.root.sentinels = append(fx.root.sentinels, v.L[1])
+			fx.root.noteOnce("assumed: sentinel error variables (EOF, Err*) are non-nil, distinct and never reassigned")
+		}
+	}
 	st.Globals[g] = v
 	return v
 }
@@ -895,6 +910,16 @@ func (fx *FnCtx) valuesEqual(x, y Value, xt, yt types.Type) *Term {
 			return Eq(x.L[0], y.L[0])
 		}
 	case *types.Interface:
+		// an interface value is nil exactly when its dynamic type is absent
+		isNil := func(v Value) bool {
+			return v.L[0].IsNum() && v.L[0].Val.Sign() == 0 && v.L[1].IsNum() && v.L[1].Val.Sign() == 0
+		}
+		if isNil(y) {
+			return Eq(x.L[0], y.L[0])
+		}
+		if isNil(x) {
+			return Eq(y.L[0], x.L[0])
+		}
 		return And(Eq(x.L[0], y.L[0]), Eq(x.L[1], y.L[1]))
 	case *types.Basic:
 		if u.Info()&types.IsString != 0 {
